@@ -322,3 +322,50 @@ contract(F03 + "Procedure_Stmt.match", types=dict(string="str"), returns="tuple[
         "keyword_after_optional_module": "implies(result is not None, " + _PS + "[:9].upper() == 'PROCEDURE')",
         "names_are_the_rest": "implies(result is not None, rule_text(nonnull(result)[0]) == " + _PS + "[9:].lstrip())",
     }, raises={"*": {}}, serves=["C02"])
+
+_LB = "string[4:].lstrip()"
+_LBI = _LB + "[1:-1].strip()"
+_LBC = _LBI + "[1:].lstrip()"
+_LBN = _LBC + "[1:].lstrip()"
+contract(F03 + "Language_Binding_Spec.match", types=dict(string="str"), returns="tuple[ref:Base?]?", modifies=["rule_evals"],
+    calls={"Scalar_Char_Initialization_Expr": "proto:operand_rule"},
+    ensures={
+        "bind_c_in_one_pair_of_parentheses": "implies(result is not None, string[:4].upper() == 'BIND' and " + _LB + ".startswith('(') and " + _LB + ".endswith(')') and "
+            "len(" + _LB + ") >= 2 and " + _LBI + "[:1].upper() == 'C')",
+        "no_name_only_if_nothing_follows_c": "implies(result is not None, (nonnull(result)[0] is None) == (" + _LBC + " == ''))",
+        "name_is_everything_after_the_equals_sign": "implies(result is not None and nonnull(result)[0] is not None, " + _LBC + ".startswith(',') and " + _LBN + "[:4].upper() == 'NAME' and "
+            + _LBN + "[4:].lstrip().startswith('=') and rule_text(nonnull(nonnull(result)[0])) == " + _LBN + "[4:].lstrip()[1:].lstrip())",
+    }, raises={"*": {}}, serves=["C02", "C08"])
+
+contract(F03 + "Implicit_Spec.match", types=dict(string="str"), returns="tuple[ref:Base,ref:Base]?", modifies=["rule_evals"],
+    calls={"Declaration_Type_Spec": "proto:operand_rule", "Letter_Spec_List": "proto:operand_rule"},
+    ensures={
+        "letters_in_the_last_pair_of_parentheses": "implies(result is not None, string.endswith(')') and '(' in string and "
+            "rule_text(nonnull(result)[1]) == string[string.rfind('(') + 1:-1].strip() and rule_text(nonnull(result)[1]) != '')",
+        "type_is_everything_before": "implies(result is not None, rule_text(nonnull(result)[0]) == string[:string.rfind('(')].rstrip() and rule_text(nonnull(result)[0]) != '')",
+    }, raises={"*": {}}, serves=["C02"])
+
+for _cls, _kw in (("Backspace_Stmt", "BACKSPACE"), ("Endfile_Stmt", "ENDFILE"), ("Rewind_Stmt", "REWIND"), ("Flush_Stmt", "FLUSH")):
+    _PL = "string[%d:].lstrip()" % len(_kw)
+    contract(F03 + _cls + ".match", types=dict(string="str"), returns="tuple[ref:Base?,ref:Base?]?", modifies=["rule_evals"],
+        calls={"File_Unit_Number": "proto:operand_rule", "Position_Spec_List": "proto:operand_rule", "Flush_Spec_List": "proto:operand_rule"},
+        ensures={
+            "keyword_leads": "implies(result is not None, string[:%d].upper() == %r)" % (len(_kw), _kw),
+            "spec_list_exactly_when_parenthesised": "implies(result is not None, (nonnull(result)[1] is not None) == " + _PL + ".startswith('(') and "
+                "(nonnull(result)[0] is None) == " + _PL + ".startswith('('))",
+            "spec_list_is_the_content_of_the_parentheses": "implies(result is not None and nonnull(result)[1] is not None, " + _PL + ".endswith(')') and "
+                "rule_text(nonnull(nonnull(result)[1])) == " + _PL + "[1:-1].strip())",
+            "unit_number_is_the_rest": "implies(result is not None and nonnull(result)[0] is not None, rule_text(nonnull(nonnull(result)[0])) == " + _PL + ")",
+        }, raises={"*": {}}, serves=["C02", "C08"])
+
+_SF = "string[:string.find('=')].rstrip()"
+contract(F03 + "Stmt_Function_Stmt.match", types=dict(string="str"), returns="tuple[ref:Base,ref:Base?,ref:Base]?", modifies=["rule_evals"],
+    calls={"Function_Name": "proto:operand_rule", "Dummy_Arg_Name_List": "proto:operand_rule", "Scalar_Expr": "proto:operand_rule"},
+    ensures={
+        "expression_is_everything_after_the_first_equals_sign": "implies(result is not None, '=' in string and rule_text(nonnull(result)[2]) == string[string.find('=') + 1:].lstrip() and "
+            "rule_text(nonnull(result)[2]) != '')",
+        "name_before_the_first_parenthesis": "implies(result is not None, " + _SF + ".endswith(')') and '(' in " + _SF + " and "
+            "rule_text(nonnull(result)[0]) == " + _SF + "[:" + _SF + ".find('(')].rstrip() and rule_text(nonnull(result)[0]) != '')",
+        "arguments_are_the_content_of_the_parentheses": "implies(result is not None, (nonnull(result)[1] is not None) == (" + _SF + "[" + _SF + ".find('(') + 1:-1].strip() != '') and "
+            "implies(nonnull(result)[1] is not None, rule_text(nonnull(nonnull(result)[1])) == " + _SF + "[" + _SF + ".find('(') + 1:-1].strip()))",
+    }, raises={"*": {}}, serves=["C02"])
